@@ -367,12 +367,15 @@ class FileCheck:
     return low <= s.vp and s.vp + self.max_rows(s) - 1 <= self.rows_cfg
 
   def v(self, mech, what, sub=None):
-    if sub is not None and sub.cs_irregular:
+    # file-level contexts (ttconv appends such subtitles to an earlier paragraph, which also changes that paragraph)
+    if any(s.cs_irregular for s in self.rf.subs):
       mech += ":cs-irregular"
+    if self.cum_after_dropped:
+      mech += ":cum-after-dropped"
+    if not self.rf.teletext and self.cfg.get("max_row_count") == "MNR" and self.rf.mnr() is None:
+      mech += ":mnr-invalid"
     if sub is not None and sub.inner_filler:
       mech += ":inner-filler"
-    if sub is not None and sub.index in self.cum_after_dropped:
-      mech += ":cum-after-dropped"
     if sub is not None and mech.startswith(("text:", "paragraph-mismatch")) and any(fl["diacritic_space"] for _, fl in sub.readings):
       mech += ":diacritic-before-space"
     self.viol.append((mech, what))
@@ -747,7 +750,10 @@ def classify_extra(fc: FileCheck, o: ObsP, t, info, interp, off):
   if "USERDATA" in o.text or "UDINCHAIN" in o.text:
     fc.v("userdata-rendered", f"t={t}: user-data block (EBN=FEh) rendered: {o.text!r}")
     return
-  fc.v("unexpected-content", f"t={t}: paragraph {o.text!r} in region {o.rid} corresponds to no subtitle visible at that time")
+  near = [s for s in rf.subs if window(s) is not None and window(s)[0] <= t < max(window(s)[1], window(s)[0] + EPS)
+          and any(fl["diacritic_space"] for _, fl in s.readings)]
+  fc.v("unexpected-content" + (":diacritic-before-space" if near else ""),
+       f"t={t}: paragraph {o.text!r} in region {o.rid} corresponds to no subtitle visible at that time")
 
 
 def order_check(fc: FileCheck, doc, interp):
